@@ -112,7 +112,8 @@ def _subst_types(x, m):
         if isinstance(v, str):
             return pat.sub(lambda mm: m[mm.group(1)], v)
         if isinstance(v, dict):
-            return {k: go(w) for k, w in v.items()}
+            # a callee's definition path (`<impl *const T>::cast`) names the parameters of *its* definition, not the spliced function's
+            return {k: (w if k == "path" and isinstance(w, str) else go(w)) for k, w in v.items()}
         if isinstance(v, list):
             return [go(w) for w in v]
         return v
